@@ -132,7 +132,8 @@ def findLoop (e : Endian) (ix : UnitIndex) (id mask hash2 : Nat) : Nat â†’ Nat â
 
 /-- `UnitIndex::find` with the probe count -/
 def findN (e : Endian) (ix : UnitIndex) (id : Nat) : Option Nat Ã— Nat :=
-  if ix.slotCount = 0 then (none, 0)
+  -- "An ID of 0 marks an unused slot, so it is never present."
+  if ix.slotCount = 0 âˆ¨ id = 0 then (none, 0)
   else
     let mask := ix.slotCount - 1
     let hash1 := id &&& mask
